@@ -15,6 +15,8 @@ Ops_Q == {"defer", "lazy", "idle", "after", "run", "dropstakker", "deferod", "la
 Ops_QBody == {"defer", "lazy", "idle", "after", "deferod"}
 Ops_ATop == {"acreate", "call", "pcall", "owndrop", "kill", "run", "zombie", "dropstakker"}
 Ops_ABody == {"defer", "call", "owndrop"}
+Ops_OTop == {"acreate", "ownclone", "call", "owndrop", "run"}
+Ops_OMeth == {"owndrop", "pcall", "ownclone"}
 Ops_ATopAll == {"acreate", "call", "pcall", "callown", "owndrop", "ownclone", "kill", "run", "zombie", "dropstakker",
                 "mkret", "ret", "retdrop", "defer"}
 Ops_AMethAll == {"stop", "fail", "call", "pcall", "defer", "keepown", "owndrop", "ret", "retdrop", "keepret", "acreate"}
